@@ -160,3 +160,57 @@ def slot_calls(fn, names=('set', 'get', 'clear')):
         if cal and cal.get('method') and short(cal.get('cls', '')) in SLOT_CLASSES and cal['name'] in names:
             out.append(n)
     return out
+
+
+def check_counter_zero(ctx, tu, rule):
+    """Both queue counters count guard objects alive *on this queue* (CounterGuard for queueEmptyCounter, DisableQueueNotify for
+    queueNotifyCounter): each guard keeps a pointer/reference to the queue it incremented and decrements that one only. A queue under
+    construction has no such guard, so every constructor has to start both counters at zero - a value taken from another queue would
+    never be decremented (emptyQueue() false for ever, or wait() blocked for ever). Accepted forms: a literal 0, or value-initialisation
+    that is not indeterminate (judged separately)."""
+    n = 0
+    for f in tu.fns:
+        if f.cls not in ('EventQueueBase', 'HeterEventQueueBase') or f.kind != 'ctor' or f.d.get('delegating'):
+            continue
+        inits = {i.get('member'): i for i in f.d.get('inits', []) if i.get('kind') == 'member'}
+        bad = []
+        for fld in ('queueEmptyCounter', 'queueNotifyCounter'):
+            i = inits.get(fld)
+            if not i or not i.get('n'):
+                bad.append('%s: no initialiser' % fld)
+                continue
+            x = f.strip_all_casts(i['n'])
+            if f.nodes[x]['cls'] == 'CXXDefaultInitExpr':      # default member initialiser: judge that expression
+                kids = [k for k in f.nodes[x].get('kids', []) if k]
+                if not kids:
+                    bad.append('%s: default member initialiser not visible' % fld)
+                    continue
+                x = f.strip_all_casts(kids[0])
+            while f.nodes[x]['cls'] == 'InitListExpr' and len([k for k in f.nodes[x].get('kids', []) if k]) == 1:
+                x = f.strip_all_casts([k for k in f.nodes[x]['kids'] if k][0])
+            if f.nodes[x]['cls'] == 'InitListExpr' and not [k for k in f.nodes[x].get('kids', []) if k]:
+                args = []
+            elif f.is_construct(x):
+                args = [a for a in f.nodes[x].get('args', []) if f.nodes[a]['cls'] != 'CXXDefaultArgExpr']
+            else:
+                args = [x]
+            ok = not args and not i.get('indet')
+            if len(args) == 1:
+                a = f.strip_all_casts(args[0])
+                while f.nodes[a]['cls'] == 'InitListExpr' and len([k for k in f.nodes[a].get('kids', []) if k]) == 1:
+                    a = f.strip_all_casts([k for k in f.nodes[a]['kids'] if k][0])
+                ao = f.nodes[a]
+                val = ao.get('value') if ao['cls'] == 'IntegerLiteral' else ao.get('cv')
+                # a compile-time constant zero that reads no object (no member access, no call)
+                reads = any(f.nodes[d]['cls'] in ('MemberExpr', 'CallExpr', 'CXXMemberCallExpr', 'CXXOperatorCallExpr')
+                            for d in [a] + f.descendants(a))
+                ok = val == 0 and val is not False and not reads
+                if not ok:
+                    bad.append('%s is initialised from a %s at %s' % (fld, ao['cls'], f.nloc(a)))
+            elif not ok:
+                bad.append('%s: %d-argument initialiser' % (fld, len(args)))
+        n += 1
+        ctx.ob(rule, f, 'a new queue starts with both guard counters at zero (no guard object can refer to it yet)', not bad,
+               detail='; '.join(bad) + ' - guards alive on the source only ever decrement the source, so the new queue never gets back to zero',
+               key_detail='counters zero')
+    return n
